@@ -3,6 +3,7 @@ import signal
 
 from simkit.core import Result, h64
 from simkit.kernel import Sim, current_task
+from simkit import preempt
 from worlds import master
 
 ID = "C03"
@@ -80,7 +81,7 @@ def make_case(index, rng, tier):
     boot_fail = None
     if rng.randrange(12) == 0:
         boot_fail = {"age": rng.randrange(1, 8), "code": rng.choice([3, 4])}
-    bug = {"fork_child_first": rng.randrange(2) == 0, "spurious_select": rng.randrange(3) == 0, "random_spawn_delay": rng.randrange(2) == 0,
+    bug = {"pyticks": rng.randrange(3) == 0, "fork_child_first": rng.randrange(2) == 0, "spurious_select": rng.randrange(3) == 0, "random_spawn_delay": rng.randrange(2) == 0,
            "pid_wrap": rng.choice([0, 0, 0, 12, 16, 24])}
     return {"cfg": cfg, "events": sorted(events, key=lambda e: e["t"]), "ticks": ticks, "scripts": scripts,
             "boot_fail": boot_fail, "buggify": bug, "preempt": rng.randrange(0, 4)}
@@ -90,6 +91,9 @@ def run(case, choices):
     res = Result()
     sim = Sim(choices, max_steps=60000, max_time=200.0)
     sim.buggify = dict(case["buggify"])
+    if case["buggify"].get("pyticks"):
+        preempt.enable()
+        sim.py_ticks = True          # eval-breaker points inside gunicorn's Python code are delivery / pre-emption points too
     if case["buggify"].get("pid_wrap"):
         sim.pid_max = 100 + case["buggify"]["pid_wrap"]      # pid numbers wrap: a younger worker can get a smaller pid
     cfg = dict(case["cfg"])
